@@ -123,7 +123,11 @@ def analyse_body(W, body):
             sr.status, sr.why = "propagated", "value is an identity transport of %s" % P.show(T)[:60]
             out.append(sr)
             continue
-        sr.status, sr.why = classify(T, roots, switch_terms, ret_terms, depth=0)
+        ps = path_status(W, body, T)
+        if ps is not None:
+            sr.status, sr.why = ps
+        else:
+            sr.status, sr.why = classify(T, roots, switch_terms, ret_terms, depth=0)
         out.append(sr)
     panics = []
     for bb, t in body.calls():
@@ -204,3 +208,56 @@ def err_consumed(E, roots, ret_terms):
                 return "propagated", "error reaches the return value"
     # matched on its variant (a handled-error table decides whether that is acceptable)
     return "REJECTED", "the error payload is extracted but does not reach the return value (only logged / ignored?)"
+
+
+def adapter_root(t):
+    """Innermost call of an adapter chain  optional(context(branch(CALL))) -> CALL."""
+    seen = 0
+    while t[0] == "call" and (t[1] in ADAPTERS or t[1] in P.OK_PRESERVING) and t[3] and seen < 8:
+        t = t[3][0]
+        seen += 1
+    return t
+
+
+def is_error_exit(term):
+    if term[0] == "call" and term[1] == FROM_RESIDUAL:
+        return True
+    if term[0] == "agg" and isinstance(term[1], tuple) and term[1][0] == "adt" and term[1][2] == "Err":
+        return True
+    return False
+
+
+def path_status(W, body, T):
+    """Path-based discipline for a Result whose outcome is tested in this body (a `?`, a `match`, an `if let`, an
+    `is_err()`; adapter chains are looked through): on every product path on which the call FAILED the function must end
+    in an error return (or re-run the call).  Independent of how the test is spelled.  None when the outcome is never
+    tested here (the term-based classification then decides: returned as is / passed on / dropped)."""
+    g = W.gea(body)
+    atoms = [a for a in g.atoms if a[0] == "VARIANT" and adapter_root(a[1]) == T]
+    if not atoms:
+        return None
+    pv = W.prov(body)
+    errv = frozenset(["err"])
+    succ_blocks = set(d[0] for d in pv.defsites.get(0, []) if not is_error_exit(pv.def_term(d)))
+    ret_blocks = set(b["i"] for b in body.blocks if b["term"]["k"] == "return" and not b["cleanup"])
+    starts = [y for x, ys in g.edges.items() for y in ys
+              if any(dict(y[1]).get(a) == errv and dict(x[1]).get(a) != errv for a in atoms)]
+    if not starts:
+        return None
+    seen = set()
+    stk = list(starts)
+    unit_ret = body.locals[0]["ty"] == "()"
+    while stk:
+        x = stk.pop()
+        if x in seen:
+            continue
+        seen.add(x)
+        val = dict(x[1])
+        still = any(val.get(a) == errv for a in atoms)
+        if still and (x[0] in succ_blocks or (unit_ret and x[0] in ret_blocks)):
+            return "REJECTED", "a non-error return (line %d) is reachable on a path where the call failed: the failure is swallowed" % body.line_of_block(x[0])
+        if not still:
+            continue          # the call was re-run (or its outcome re-bound): a new outcome is judged on its own
+        for y in g.edges.get(x, ()):
+            stk.append(y)
+    return "propagated", "every path on which the call failed ends in an error return"
